@@ -124,6 +124,21 @@ def fresh_z(name, sort):
     return z3.Const('%s!%d' % (name, _n[0]), sort)
 
 
+LITERALS = {}
+
+
+def lit(s):
+    """a string literal used as a name: one distinct Atom constant per literal"""
+    if s not in LITERALS:
+        LITERALS[s] = z3.Const('lit_' + ''.join(c if c.isalnum() else '_%x_' % ord(c) for c in s), Atom)
+    return LITERALS[s]
+
+
+def distinct_literals():
+    cs = list(LITERALS.values())
+    return [z3.Distinct(*cs)] if len(cs) > 1 else []
+
+
 # ---------------------------------------------------------------- constructors / accessors
 def mk_tup(*svs):
     t = TUP(*[v.t for v in svs])
